@@ -286,12 +286,29 @@ def make_history(rng, kind, want_weights):
     return df, final, fsnm, fmods, steps
 
 
+VERBOSE = [0]
+VERBOSE_DIFF = []
+
+
 def run_search(df, meta, snm_formula, start=None):
     try:
         g = build(df, meta, snm_formula)
         with warnings.catch_warnings():
             warnings.simplefilter('ignore')       # statsmodels re-enables its separation warnings on every fit
-            g.fit(solver='search', starting_value=start)
+            VERBOSE[0] += 1
+            if VERBOSE[0] % 2 == 0:
+                # the documented iteration log (verbose_solver=True) is a display option: the root found is the same
+                import io
+                import contextlib
+                with contextlib.redirect_stdout(io.StringIO()):
+                    g.fit(solver='search', starting_value=start, verbose_solver=True)
+                gq = build(df, meta, snm_formula)
+                gq.fit(solver='search', starting_value=start)
+                pv, pq = np.asarray(g.psi, dtype=float).ravel(), np.asarray(gq.psi, dtype=float).ravel()
+                if len(pv) != len(pq) or np.max(np.abs(pv - pq)) > 1e-12 * max(1.0, float(np.max(np.abs(pq)))):
+                    VERBOSE_DIFF.append(([float(x) for x in pv], [float(x) for x in pq]))
+            else:
+                g.fit(solver='search', starting_value=start)
         o = g._scipy_solver_obj
         return {'psi': [float(x) for x in np.asarray(g.psi).ravel()], 'fun': float(o.fun), 'success': bool(o.success), 'nit': int(o.nit)}
     except Exception as ex:   # noqa
@@ -422,6 +439,10 @@ def check_cases(ctx, fails, cases, plan):
                 start = [cl['psi'][0] * 1.05 + 0.02] + [0.0] * (len(cl['psi']) - 1)
             s = run_search(df, meta, f, start)
             ctx.evaluations += 1
+            while VERBOSE_DIFF:
+                pv, pq = VERBOSE_DIFF.pop()
+                fails.append((meta['n'], 'GEstimationSNM.search.verbose-changes-result', 'fit(solver="search", verbose_solver=True) for %r returned psi=%r, '
+                              'the same search without the iteration log %r' % (f, pv, pq), pay))
             ctx.count('search:%s:%d-param' % (mode, dim))
             if 'error' in s:
                 fails.append((meta['n'], 'GEstimationSNM.search.raises', 'fit(solver="search") for %r raised %s' % (f, s['error']), pay))
